@@ -97,6 +97,39 @@ Theorem C09_abort_regression :
 Proof. exact abort_witness_result. Qed.
 Print Assumptions C09_abort_regression.
 
+(* ---- the converse directions: what Prune must do *)
+(* a finished change that became ready before the prune limit is removed, whatever the ready count *)
+Theorem C09_old_ready_removed : forall p order s c r, In c order -> pc_ready c = Some r -> r < prune_limit p ->
+  ~ has_id (r_changes (prune_with p order s)) (pc_id c).
+Proof. exact old_ready_removed. Qed.
+Print Assumptions C09_old_ready_removed.
+
+(* an unready change without tasks, spawned (from the start of operation at the earliest) before the prune limit, is removed *)
+Theorem C09_old_empty_removed : forall p order s c, In c order -> pc_ready c = None -> pc_tasks c = [] ->
+  clamped_spawn p c < prune_limit p -> ~ has_id (r_changes (prune_with p order s)) (pc_id c).
+Proof. exact old_empty_removed. Qed.
+Print Assumptions C09_old_empty_removed.
+
+(* an unready change that has existed for the abort period, is not pending, and is not the empty prunable case IS aborted *)
+Theorem C09_old_unready_aborted : forall p order s c, In c order -> pc_ready c = None ->
+  (pc_tasks c <> [] \/ prune_limit p <= clamped_spawn p c) -> clamped_spawn p c < abort_limit p -> is_pending p c = false ->
+  In (pc_id c) (r_aborted (prune_with p order s)).
+Proof. exact old_unready_aborted. Qed.
+Print Assumptions C09_old_unready_aborted.
+
+(* never more than maxReadyChanges finished changes are kept (for every visiting order, sorted or not) *)
+Theorem C09_count_bound : forall p order, 0 <= p_max_ready p ->
+  Z.of_nat (length (filter kept_ready (vs_of p order))) <= p_max_ready p.
+Proof. exact count_bound. Qed.
+Print Assumptions C09_count_bound.
+
+(* a change that stays keeps every task it lists - no dangling task reference after Prune - provided the listing is what
+   AddTask establishes (listed tasks exist and are linked back; no task listed by two changes) *)
+Theorem C09_kept_change_keeps_tasks : forall p order s c' id, listing_ok order s ->
+  In c' (r_changes (prune_with p order s)) -> In id (pc_tasks c') -> In id (map pt_id (r_tasks (prune_with p order s))).
+Proof. exact kept_change_keeps_tasks. Qed.
+Print Assumptions C09_kept_change_keeps_tasks.
+
 (* non-vacuity: a state in which one old finished change goes, with its task; a young one stays; an old unready one is aborted *)
 Example C09_example :
   let s := mkPS [mkPC 1 (-1000) (Some (-900)) [1%N] []; mkPC 2 (-50) (Some (-40)) [2%N] []; mkPC 3 (-1000) None [3%N] []]
@@ -104,4 +137,14 @@ Example C09_example :
   let r := prune (mkParams 0 0 None 100 200 5 []) s in
   map pc_id (r_changes r) = [2; 3]%N /\ map (fun t => (pt_id t, pt_status t)) (r_tasks r) = [(2, 4); (3, 5)]%N /\
   r_aborted r = [3%N] /\ r_warnings r = [] /\ length (r_notices r) = 1%nat.
+Proof. vm_compute. repeat split; reflexivity. Qed.
+
+(* non-vacuity of the converse theorems and of the count bound: three finished changes, limit 1: the two oldest go although
+   none is older than the prune limit; the hypotheses of listing_ok hold of this state *)
+Example C09_count_example :
+  let s := mkPS [mkPC 1 (-90) (Some (-30)) [1%N] []; mkPC 2 (-90) (Some (-20)) [2%N] []; mkPC 3 (-90) (Some (-10)) [] []]
+                [mkPT 1 4 (-90) 1; mkPT 2 4 (-90) 2] [] [] in
+  let p := mkParams 0 0 None 100 200 1 [] in
+  map pc_id (r_changes (prune p s)) = [3%N] /\ r_tasks (prune p s) = [] /\
+  length (filter kept_ready (vs_of p (sort_changes (ps_changes s)))) = 1%nat.
 Proof. vm_compute. repeat split; reflexivity. Qed.
